@@ -4,15 +4,18 @@ import RoaringModel.Lemmas.MultiList
 # C09: `merge_container_owned/ref`, promotion, copy-on-write and the final clean-up are correct
 *given* the store-level kernel facts bundled in `Kernel`
 
-`Kernel` is a structure of **named hypotheses** about functions that `multiops.rs` merely calls
+`Kernel` is a record of facts about functions that `multiops.rs` merely calls
 (`Store::{bitor,bitxor}_assign`, `Store::to_bitmap`, `Container::ensure_correct_store`, the element lists
 of valid stores, and the three whole-bitmap operators of ops.rs).  Nothing here is an axiom: every theorem
-takes `(K : Kernel)` as an argument; the store/algebra families discharge it.
+takes `(K : Kernel)` as an argument, and the record is inhabited unconditionally by `Multi.kernel`
+(`Lemmas/MultiKernelProof.lean`, from the core library and the algebra family), so Props/C09.lean carries no
+hypothesis.
 -/
 namespace Roaring.Multi
 open Roaring Roaring.Spec Roaring.Multi.SpecL
 
-/-! ## invariants (DESIGN §4; duplicates of the shared `WF`, to be unified at merge) -/
+/-! ## invariants (DESIGN §4; local forms of the shared ones of `Inv.lean` — `storeValid_iff`, `storeWF_iff`,
+    `wf_iff : Multi.WF b ↔ Bitmap.WF b` in `Lemmas/MultiKernelProof.lean`) -/
 
 /-- a store whose representation is sound but not necessarily of the canonical *kind* (what the merge
     algorithms hold between the first merge and the final `ensure_correct_store`) -/
